@@ -145,7 +145,7 @@ Definition track_local (t : tok) : bool :=
   | TCC _ _ | TPitchBend _ _ | TRpnCmd _ _ _ _               (* controller / bend events on the current track *)
   | TRandom _ _ | TOnNote _ _ _ | TVOnTime _ | TCCOnTime _ _ | TCCOnNote _ _ | TCCOnNoteWave _ _ | TCCFreq _
   | TPBOnTime _ _ | TDecresc _ _ _ => true                   (* reservations of the current track *)
-  | TMetaText _ _ => true                                    (* a text meta event on the current track *)
+  | TMetaText _ _ | TPort _ => true                          (* a meta event on the current track *)
   | _ => false
   end.
 
